@@ -194,6 +194,12 @@ func init() {
 			g.ex.clock++
 			return g.ex.clock
 		},
+		// Stamp: logical clock without a scheduling point (runs atomically with
+		// the caller's previous visible operation)
+		"Stamp": func(g *G, fr *frame, a []value) value {
+			g.ex.clock++
+			return g.ex.clock
+		},
 		"SetPreempt": func(g *G, fr *frame, a []value) value {
 			g.ex.preemptBound = a[1].(int)
 			return nil
